@@ -11,7 +11,7 @@ META = {
     'level': 'proof',
     'technique': 'Lean 4 theorems (every view of the layer-scanning loader = the OCI visibility rule, all images satisfying the decidable hypothesis H; '
                  'lock-step loader = per-view fold; byte limit) + correspondence of the Lean model with image.FromV1Image on generated images',
-    'design_ref': 'DESIGN.md §5 C04, §6 rows 10-14, 28-30, 38',
+    'design_ref': 'DESIGN.md §4 (section of C04), §5 (defects), §7 (seeded changes)',
     'text': 'Kernel-checked: for every image (any number of layers, entries, depth) and every view j, under H (each tar lists a path once and a directory before its '
             'contents, nothing beneath a whiteout or non-directory of the same tar, no opaque marker, no directory re-created over older children after its deletion, '
             'no directory implied over an older explicit entry) the view answers every path exactly as the OCI visibility rule does — kind, mode, size, content id, link '
